@@ -46,6 +46,8 @@ func (e *Env) child(g int) *Env {
 	c.itFlags = map[int]itFlags{}
 	c.cov = map[string]int{}
 	c.nextObj = 1000000 + g*1000000
+	c.keybuf = nil // every goroutine is its own caller with its own key buffer
+	c.statObjs = nil
 	return &c
 }
 
@@ -235,6 +237,8 @@ func (e *Env) doArmGateClose(op *Op) {
 // wfaults
 
 type faultWriter struct {
+	once    int // >= 0: the single Write call that would carry byte `once` fails (accepting nothing), later ones succeed
+	onceHit bool
 	limit   int // bytes accepted before failing; -1 = never fail
 	n       int
 	buf     bytes.Buffer
@@ -246,6 +250,10 @@ type faultWriter struct {
 var errInjected = fmt.Errorf("injected write failure")
 
 func (w *faultWriter) Write(p []byte) (int, error) {
+	if w.once >= 0 && !w.onceHit && w.n+len(p) > w.once {
+		w.onceHit = true
+		return 0, errInjected
+	}
 	if w.limit >= 0 && w.n+len(p) > w.limit {
 		k := w.limit - w.n
 		if k < 0 {
@@ -297,7 +305,7 @@ func (e *Env) doWFaults(op *Op) {
 			} else {
 				m = impl.MergeM(segs, drops, buf, op.Mode)
 			}
-			first := &faultWriter{limit: -1, closeAt: -1}
+			first := &faultWriter{once: -1, limit: -1, closeAt: -1}
 			if _, err := m.WriteTo(first, make(chan struct{})); err != nil {
 				return 0, fmt.Errorf("first WriteTo failed: %v", err)
 			}
@@ -325,7 +333,7 @@ func (e *Env) doWFaults(op *Op) {
 		buf := bufs[bi]
 		run := mk(buf)
 		// fault-free reference
-		ref := &faultWriter{limit: -1, closeAt: -1}
+		ref := &faultWriter{once: -1, limit: -1, closeAt: -1}
 		var rn int64
 		var rerr error
 		cl := e.call(func() { rn, rerr = run(ref, make(chan struct{})) })
@@ -353,7 +361,7 @@ func (e *Env) doWFaults(op *Op) {
 				"outcomes": [][]interface{}{{len(full0) + 1, "nil", len(full), false, false, clampSigned(int(rn))}}, "res": M{"kind": "ok"}})
 			continue
 		}
-		modes := []string{"fail"}
+		modes := []string{"fail", "fail1"} // fail1: one Write call fails, the destination works again afterwards
 		if kind == "merge" {
 			modes = append(modes, "close", "retry")
 		}
@@ -380,9 +388,11 @@ func (e *Env) doWFaults(op *Op) {
 				}
 			}
 			for k := 0; k <= L+1+step; k += step {
-				w := &faultWriter{limit: -1, closeAt: -1, ch: make(chan struct{})}
+				w := &faultWriter{once: -1, limit: -1, closeAt: -1, ch: make(chan struct{})}
 				if mode == "fail" || mode == "retry" {
 					w.limit = k
+				} else if mode == "fail1" {
+					w.once = k
 				} else {
 					w.closeAt = k
 					if k == 0 {
